@@ -542,7 +542,7 @@ def build_python_package(api, extra_backends=(), pkg=None):
     root = fresh_dir('pkg')
     pkg = pkg or fresh_pkg_name()
     out = os.path.join(root, pkg)
-    b = run_backend(api, 'python_types', ['-r', pkg + '.{ns}'] if False else [], out)
+    b = run_backend(api, 'python_types', ['-p', pkg], out)
     if not b.ok:
         shutil.rmtree(root, ignore_errors=True)
         return None, b
